@@ -156,7 +156,7 @@ def _replay(prop, name, params, bad, exception, seed, n_random=2, where=None):
     """try the solver's inputs, then a few random inputs; a violation is confirmed when an obligation with
     the same base label fails (or the same exception type is raised) on the unmodified code"""
     out = {'confirmed': [], 'unconfirmed': [], 'attempts': 0}
-    want = sorted(set(o.get('group') or _base(o['label']) for o in bad))
+    want = sorted(set([_base(o['label']) for o in bad] + [o['group'] for o in bad if o.get('group')]))
     cands = []
     for o in bad:
         if o.get('model_inputs'):
@@ -183,14 +183,14 @@ def _replay(prop, name, params, bad, exception, seed, n_random=2, where=None):
             keep = True
         if not keep:
             os.remove(path)
-        if len(confirmed) == len(want) and (not exception or exc_confirmed):
+        if all((_base(o['label']) in confirmed) or (o.get('group') in confirmed) for o in bad) and (not exception or exc_confirmed):
             break
         if i >= 1 and (confirmed or exc_confirmed) and len(want) > 4:
             break           # many failing obligations of one scenario: one confirmed replay is enough to raise the alarm
     out['confirmed'] = [{'label': b, 'replay': p} for b, p in confirmed.items()]
     if exc_confirmed:
         out['confirmed'].append({'label': 'exception ' + exception.split(':')[0], 'replay': exc_confirmed, 'exception': exception})
-    out['unconfirmed'] = [b for b in want if b not in confirmed]
+    out['unconfirmed'] = [_base(o['label']) for o in bad if _base(o['label']) not in confirmed and o.get('group') not in confirmed]
     if exception and not exc_confirmed:
         out['unconfirmed'].append('exception ' + exception)
     return out
@@ -350,7 +350,9 @@ def report(prop, tier, seed, results, meta, wall, scens):
             elif o['status'] == 'unknown':
                 inconclusive.append('%s %s: %s (solver unknown)' % (r['scenario'], json.dumps(r['params']), o['label']))
             else:
-                b = o.get('group') or _base(o['label'])
+                b = _base(o['label'])
+                if b not in conf and o.get('group') in conf:
+                    b = o['group']
                 if b in conf:
                     k = match_known(known, prop, r['scenario'], r['params'], b)
                     if k:
